@@ -113,6 +113,7 @@ def body(ctx):
                     conds.append(z3.BoolVal(len(items) == 0 and a_untouched and b_untouched))
                 else:
                     conds.append(z3.BoolVal(False))
+                conds.append(earlier_kept(w))
                 m = ctx.decide(f"c09.step[{shape},{nc}]#{npaths}:{label}", s.pc, z3.And(*conds),
                                group='server Channel.Close(n): slot n removed + error with n/code/text to its caller and consumers + CloseOk(n) queued; every other slot untouched; connection stays Steady',
                                sample={'collector': shape, 'consumers': nc, 'case': label, 'frames': [item_desc(prog, i) for i in items]})
